@@ -457,9 +457,23 @@ func runBehaviour(t *testing.T, b Behaviour, w io.Writer) {
 			open[fmt.Sprintf("T%d", i)] = 0
 		}
 		p := endp.VerifSessionPermits()
+		// The other session gives its permits back after the snapshot. Its Release is legitimate; if the
+		// limiter panics on it ("mismatched Release call") the session under test returned a permit it
+		// had not taken - an observation for the End event (PermitOverReturned), not a dead harness.
+		held := "none"
+		if b.Cfg.Hold {
+			held = "ok"
+			func() {
+				defer func() {
+					if r := recover(); r != nil {
+						held = "panic"
+					}
+				}()
+				releaseHeld()
+			}()
+		}
 		tr.Emit("End", vtrace.Ev{"open": open, "nopen": nopen, "all": p["all"], "ip": p["ip"], "source": p["source"],
-			"sessions": endp.ConnectionCount(), "unsent": len(cmds) - conn.idx, "chkOpen": ck.OpenStates()})
-		releaseHeld()
+			"sessions": endp.ConnectionCount(), "unsent": len(cmds) - conn.idx, "chkOpen": ck.OpenStates(), "held": held})
 		if env != nil {
 			env.finish()
 		}
